@@ -155,4 +155,35 @@ def Vector_tolist13_signature : List String := ["self"]
 /-- the calls of dataiter/vector.py: Vector.tolist in the order Python makes them along the source text -/
 def Vector_tolist13_call_order : List String := ["self.is_na", "np.where", "np.where(self.is_na(), None, self).tolist"]
 
+/-- dataiter/list_of_dicts.py: ListOfDicts.to_pandas (sha256 of the function source: 146d8d725a87fae2) -/
+def ListOfDicts_to_pandas (truth : Term → Bool) : Out :=
+  Out.ret [] (Term.app "pd.DataFrame" [(Term.app "._to_columns" [(Term.sym "self")])])
+
+/-- the decorators of dataiter/list_of_dicts.py: ListOfDicts.to_pandas, outermost first -/
+def ListOfDicts_to_pandas_decorators : List String := []
+
+/-- the signature of dataiter/list_of_dicts.py: ListOfDicts.to_pandas: parameters in order, with the source text of their defaults -/
+def ListOfDicts_to_pandas_signature : List String := ["self"]
+
+/-- the calls of dataiter/list_of_dicts.py: ListOfDicts.to_pandas in the order Python makes them along the source text -/
+def ListOfDicts_to_pandas_call_order : List String := ["self._to_columns", "pd.DataFrame"]
+
+/-- dataiter/geojson.py: GeoJSON.to_data_frame (sha256 of the function source: 4fc6608def8076f8) -/
+def GeoJSON_to_data_frame (truth : Term → Bool) : Out :=
+  let data' : Term := (Term.app "dict.copy" [(Term.sym "self")]);
+  if truth (Term.sym "drop_geometry") then
+    let eff0 : Term := (Term.app ".pop" [data', (Term.sym "'geometry'"), (Term.sym "None")]);
+    Out.ret [eff0] (Term.app "DataFrame" [(Term.app "=**" [data'])])
+  else
+    Out.ret [] (Term.app "DataFrame" [(Term.app "=**" [data'])])
+
+/-- the decorators of dataiter/geojson.py: GeoJSON.to_data_frame, outermost first -/
+def GeoJSON_to_data_frame_decorators : List String := []
+
+/-- the signature of dataiter/geojson.py: GeoJSON.to_data_frame: parameters in order, with the source text of their defaults -/
+def GeoJSON_to_data_frame_signature : List String := ["self", "drop_geometry=False"]
+
+/-- the calls of dataiter/geojson.py: GeoJSON.to_data_frame in the order Python makes them along the source text -/
+def GeoJSON_to_data_frame_call_order : List String := ["dict.copy", "data.pop", "DataFrame"]
+
 end DI.Gen
